@@ -40,7 +40,7 @@ from common import CaseWriter, Res, Raw, Qc, Interner, call_canon, coq, tagged, 
 from circ import CircCtx, coq_circ, coq_benv
 
 IMPORTS = ("From Coq Require Import QArith.\n"
-           "From CKT Require Import Common.Base Common.Circ Model.Measurement Model.Weights Model.Experiments Corr.C05Corr.\n"
+           "From CKT Require Import Common.Base Common.Circ Model.Measurement Model.Experiments Corr.C05Corr.\n"
            "Close Scope Q_scope.")
 CASE_TYPES = {"chk_generate": "c05_case", "chk_generate_f2": "c05_case"}
 OBS_NAME = "observable_measurements"
@@ -530,9 +530,10 @@ def nmaps_of(items_or_bases):
 
 def pick_N(rng, nmaps, tier):
     pool = ["inf", [1, 1], [5, 2], [10, 1], [100, 1], [5000, 1], [2, 1], [4, 1], [64, 1]]
+    prob = [0.16, 0.06, 0.1, 0.16, 0.14, 0.1, 0.06, 0.1, 0.12]
     cap = 300 if tier == "quick" else 1500
     while True:
-        n = pool[int(rng.integers(0, len(pool)))]
+        n = pool[int(rng.choice(len(pool), p=prob))]
         est = nmaps if n == "inf" else min(nmaps, math.ceil(n[0] / n[1]) + 1)
         if est <= cap:
             return n
@@ -545,7 +546,7 @@ def valid_desc(rng, tier):
     lset = LABEL_SETS[int(rng.integers(0, len(LABEL_SETS)))]
     nparts = int(rng.integers(1, min(n, 3) + 1))
     labels = [lset[int(rng.integers(0, nparts))] for _ in range(n)]
-    max_cross = int(rng.integers(0, 4))
+    max_cross = int(rng.choice(4, p=[0.08, 0.34, 0.36, 0.22]))
     desc = dict(route=route, nq=n, mut=[])
     if route in ("pp", "pcq"):
         desc["items"] = rand_items(rng, n, labels, max_cross, preplaced=(route == "pp" and rng.integers(0, 3) == 0))
@@ -632,9 +633,9 @@ def emit(w, desc, stream):
 
 def generate(rng, tier, outdir):
     w = CaseWriter(outdir, IMPORTS, CASE_TYPES)
-    w.SHARD = 40          # smaller shards: the case literals are large, the shards are compiled in parallel
-    n_valid = 110 if tier == "quick" else 1500
-    n_mal = 60 if tier == "quick" else 500
+    w.SHARD = 20          # smaller shards: the case literals are large, the shards are compiled in parallel
+    n_valid = 170 if tier == "quick" else 1500
+    n_mal = 70 if tier == "quick" else 500
     work_cap = 700 if tier == "quick" else 4000
 
     # ---- handwritten witnesses first: F2 class, both halves in one partition, identity restriction ----
